@@ -19,7 +19,7 @@ P = {
     'technique': 'Coq proof (arithmetic of the fee rules, induction over message lists and transaction histories) + differential '
                  'correspondence against real DeliverTx',
     'drivers': [
-        {'name': 'fees', 'n': {'quick': 3000, 'thorough': 60000}, 'shrink_field': 'txs', 'batch': 6000},
+        {'name': 'fees', 'args': {'strict': '1'}, 'n': {'quick': 3000, 'thorough': 60000}, 'shrink_field': 'txs', 'batch': 6000},
     ],
     'coq_header': 'From HV Require Import Fees.FeeModel.\nFrom Coq Require Import ZArith NArith List.\nImport ListNotations.',
     'lists': {'cases': {'type': 'fcase', 'check': 'mismatches', 'shard': 250}},
